@@ -32,7 +32,7 @@ def run_atheris(ctx, runs=400000, shards=8):
                 with open(os.path.join(d, 'corpus', f'seed{j}'), 'wb') as f:
                     f.write(blob)
         out = os.path.join(d, 'violation.json')
-        cmd = [os.path.join(runner.VERIF_DIR, 'checks', 'c03_fuzz_target.py'), out,
+        cmd = [os.path.join(runner.VERIF_DIR, 'checks', 'fuzz_c03_target.py'), out,
                f'-runs={runs // shards}', f'-seed={ctx.seed * 100 + i + 1}',
                '-max_len=4096', f'-artifact_prefix={d}/', os.path.join(d, 'corpus')]
         env = dict(os.environ, VERIF_REPO=runner.REPO)
